@@ -98,6 +98,58 @@ def gen_utt(rng, u, style):
     return {"id": uid, "T": T, "ali": ali, "ref": ref}
 
 
+def gen_long_utt(rng, u, T):
+    """An utterance of T frames with MANY runs and tokens (size-triggered paths of the worker: more than 16 / 32 /
+    128 tokens per utterance, more than 32 / 128 chunks per utterance whatever the policy): alignment runs of 1..3
+    frames over three labels (neighbours differ), tokens with DISTINCT ids whose segments follow one another
+    (widths 1..3, now and then empty, a gap, or a missing boundary) - any reordering shows."""
+    labels = ali_labels(rng)
+    ali, lab = [], rng.randint(0, 2)
+    while len(ali) < T:
+        ali += [labels[lab]] * min(rng.randint(1, 3), T - len(ali))
+        lab = rng.choice([x for x in range(3) if x != lab])
+    ids = list(range(100, 100 + T))
+    rng.shuffle(ids)
+    ref, t = [], rng.choice([0, 0, 1])
+    while t < T:
+        d = min(rng.choice([1, 1, 2, 3, 0]), T - t)
+        tk = [ids[len(ref)], t, t + d]
+        x = rng.random()
+        if x < 0.03:
+            tk[1] = -rng.choice([1, 2, 7])
+        elif x < 0.06:
+            tk[2] = -rng.choice([1, 3])
+        ref.append(tk)
+        t += d + (1 if rng.random() < 0.05 else 0)
+        if len(ref) >= T:
+            break
+    return {"id": rng.choice([f"L{u}", f"long.{u}"]), "T": T, "ali": ali, "ref": ref}
+
+
+LONG_T = [33, 40, 64, 65, 128, 129]
+
+
+def gen_large(rng, rounds=1):
+    """Size-triggered paths at directory level. Per policy x validity one run on a long utterance (T in 33..129:
+    about T/2 tokens and runs, T resp. T/2 chunks) next to a short one; one run per round on an utterance of 1000+
+    frames with --policy fixed and a lobe of 31..64 frames (hundreds of tokens per utterance, dozens per chunk, few
+    chunks: cheap on the file system); from the second round on (thorough) also an utterance of 1000+ frames cut
+    by a drawn policy with a small lobe (hundreds of chunks)."""
+    for rnd in range(rounds):
+        for policy in POLICIES:
+            for valid in (True, False):
+                utts = [gen_long_utt(rng, 0, rng.choice(LONG_T))]
+                if rng.random() < 0.5:
+                    utts.append(gen_utt(rng, 1, "tiled"))
+                yield mk_case(rng, policy, valid, rng.random() < 0.5, rng.random() < 0.5, True, utts,
+                              {"format": rng.choice(["idx", "default"])}, lobe=rng.choice([0, 0, 1, 2]))
+        yield mk_case(rng, "fixed", rng.random() < 0.5, rng.random() < 0.5, rng.random() < 0.5, True,
+                      [gen_long_utt(rng, 0, 1000 + rng.randint(0, 40))], lobe=rng.choice([31, 32, 33, 64]))
+        if rnd >= 1:
+            yield mk_case(rng, rng.choice(POLICIES), rng.random() < 0.5, rng.random() < 0.5, rng.random() < 0.5, True,
+                          [gen_long_utt(rng, 0, 1000 + rng.randint(0, 40))], lobe=rng.choice([0, 1, 2]))
+
+
 def gen_utts(rng, style=None):
     style = style or rng.choice(["tiled", "random", "mixed"])
     nutt = rng.randint(1, 4)
@@ -420,11 +472,11 @@ def compare_files(case, impl, model):
                 continue
             got = frame_ids(case, ui, e["feat"])
             if got != f["feat"]:
-                out.append(f"file {name}: frames {got} (index of the source frame, -1 = pad constant), model {f['feat']}")
+                out.append(f"file {name}: frames {brief(got)} (index of the source frame, -1 = pad constant), model {brief(f['feat'])}")
             if case["opts"]["has_ali"] and e.get("ali") != f["ali"]:
-                out.append(f"file {name}: alignment {e.get('ali')}, model {f['ali']}")
+                out.append(f"file {name}: alignment {brief(e.get('ali'))}, model {brief(f['ali'])}")
             if case["opts"]["has_ref"] and e.get("ref") != f["ref"]:
-                out.append(f"file {name}: tokens {e.get('ref')}, model {f['ref']}")
+                out.append(f"file {name}: tokens {brief(e.get('ref'))}, model {brief(f['ref'])}{order_note(e.get('ref'), f['ref'])}")
     if all(isinstance(m.get("model_files"), list) for m in model["utts"]):
         got_names = set(impl["listing"]["feat"] or [])
         if got_names != want_names:
@@ -449,6 +501,22 @@ def windows_want(case, ws):
 
 
 SIG_1D = "C10.dir.token_only_refs_index_error"
+
+
+def order_note(got, want):
+    """Do two token lists hold the same token ids in a different order?"""
+    if isinstance(got, list) and isinstance(want, list) and got != want and len(got) == len(want) and \
+            [t[0] for t in got] != [t[0] for t in want] and sorted(t[0] for t in got) == sorted(t[0] for t in want):
+        return " [the SAME tokens in a different ORDER]"
+    return ""
+
+
+def brief(x, k=6):
+    """Long lists in messages: the first and last few entries."""
+    x = list(x) if isinstance(x, (list, tuple)) else x
+    if isinstance(x, list) and len(x) > 2 * k:
+        return f"{x[:k]}".rstrip("]") + f", ... ({len(x) - 2 * k} more) ..., " + f"{x[-k:]}".lstrip("[")
+    return f"{x}"
 
 
 def predicate_ref_1d(case, impl, model):
@@ -481,7 +549,7 @@ def predicate_ref_1d(case, impl, model):
     for u, m in zip(case["utts"], model["utts"]):
         got = [list(w) for w in windows_of(case, impl["utts"].get(u["id"], []))]
         if got != [list(w) for w in windows_want(case, m["spec"])]:
-            fails.append((f"utterance {u['id']}: chunks written for windows {got}, the policy prescribes {m['spec']}",
+            fails.append((f"utterance {u['id']}: chunks written for windows {brief(got)}, the policy prescribes {brief(m['spec'])}",
                           None))
     return fails
 
@@ -503,7 +571,7 @@ def compare(case, impl, model):
         got = [list(w) for w in windows_of(case, impl["utts"].get(u["id"], []))]
         want = [list(w) for w in windows_want(case, m["model"])] if isinstance(m["model"], list) else m["model"]
         if want != got:
-            out.append(f"utterance {u['id']}: windows written {got}, model {want}")
+            out.append(f"utterance {u['id']}: windows written {brief(got)}, model {brief(want)}")
             continue
         # the token chunk written for each window against the model of the worker (`dirChunks`, the function
         # the C10_dir theorems are about; it has the code's `+= start`)
@@ -521,7 +589,7 @@ def compare(case, impl, model):
         for e, toks in pairs:
             if e.get("ref") != toks:
                 out.append(f"utterance {u['id']} window [{e['start']},{e['end']}): token chunk written "
-                           f"{e.get('ref')}, model {toks}")
+                           f"{brief(e.get('ref'))}, model {brief(toks)}{order_note(e.get('ref'), toks)}")
                 break
     return out
 
@@ -583,7 +651,7 @@ def predicate(case, impl, model, sig_plus):
         spec = m["spec"]
         got = [list(w) for w in windows_of(case, ents)]
         if got != [list(w) for w in windows_want(case, spec)]:
-            fails.append((f"utterance {u['id']}: chunks written for windows {got}, the policy prescribes {spec}", None))
+            fails.append((f"utterance {u['id']}: chunks written for windows {brief(got)}, the policy prescribes {brief(spec)}", None))
             continue
         if o["format"] == "idx":
             if [e["idx"] for e in ents] != list(range(len(ents))):
@@ -606,24 +674,24 @@ def predicate(case, impl, model, sig_plus):
                                   f"{sorted(by_name)[:4]})", None))
                     continue
                 if frame_ids(case, ui, e["feat"]) != f["feat"]:
-                    fails.append((f"file {f['base']}: frames {frame_ids(case, ui, e['feat'])} are not the source "
-                                  f"restricted to the window with the requested padding {f['feat']}", None))
+                    fails.append((f"file {f['base']}: frames {brief(frame_ids(case, ui, e['feat']))} are not the "
+                                  f"source restricted to the window with the requested padding {brief(f['feat'])}", None))
                 if o["has_ali"] and e.get("ali") != f["ali"]:
-                    fails.append((f"file {f['base']}: alignment {e.get('ali')}, specified {f['ali']}", None))
+                    fails.append((f"file {f['base']}: alignment {brief(e.get('ali'))}, specified {brief(f['ali'])}", None))
         for e, want_toks in pairs:
             a, b = e["start"], e["end"]
             src_t = [pad_frame(case, t, T) for t in range(a, b)]
             want_feat = [[feat_value(ui, t, f) if t is not None else pad_value for f in range(F)] for t in src_t]
             if e["feat"] != want_feat:
                 fails.append((f"utterance {u['id']} window [{a},{b}): features are not the source restricted to the "
-                              f"window: {e['feat']}", None))
+                              f"window: {brief(e['feat'])}", None))
             elif e["feat_dtype"] != "torch." + case["feat_dtype"]:
                 fails.append((f"utterance {u['id']} window [{a},{b}): features stored as {e['feat_dtype']}, the source "
                               f"holds {case['feat_dtype']}", None))
             if o["has_ali"]:
                 want_ali = [u["ali"][t] if t is not None else int(pad_value) for t in src_t]
                 if e.get("ali") != want_ali or e.get("ali_dtype") != "torch.int64":
-                    fails.append((f"utterance {u['id']} window [{a},{b}): alignment {e.get('ali')} != {want_ali}", None))
+                    fails.append((f"utterance {u['id']} window [{a},{b}): alignment {brief(e.get('ali'))} != {brief(want_ali)}", None))
             if not o["has_ref"]:
                 continue
             gref = e.get("ref")
@@ -635,12 +703,13 @@ def predicate(case, impl, model, sig_plus):
                 plus = [[t, s + 2 * a, en + 2 * a] for t, s, en in want_toks]
                 if (not case["retain"]) and a != 0 and gref == plus:
                     plus_seen = True
-                    fails.append((f"utterance {u['id']} window [{a},{b}): token boundaries are in+start {gref}, "
-                                  f"slice-relative is {want_toks}", sig_plus))
+                    fails.append((f"utterance {u['id']} window [{a},{b}): token boundaries are in+start {brief(gref)}, "
+                                  f"slice-relative is {brief(want_toks)}", sig_plus))
                 else:
                     other_ref_mismatch = True
                     fails.append((f"utterance {u['id']} window [{a},{b}) partial={case['partial']} "
-                                  f"retain={case['retain']}: token chunk {gref}, specified {want_toks}", None))
+                                  f"retain={case['retain']}: token chunk {brief(gref)}, specified {brief(want_toks)}"
+                                  f"{order_note(gref, want_toks)}", None))
     # well-formedness of the produced directory (library validator). Partial matches may legitimately
     # stick out of the chunk and retained boundaries are absolute by request, so the clause is evaluated
     # for contained tokens with slice-relative boundaries only.
@@ -690,6 +759,16 @@ def tags(case, impl):
     if isinstance(impl, dict) and "error" in impl:
         t.append(f"dir:pad_mode={case['pad_mode']}:raised:{impl['error']}")
     if isinstance(impl, dict) and "utts" in impl:
+        for es in impl["utts"].values():
+            for lim in (16, 32, 128):
+                if len(es) > lim:
+                    t.append(f"dir:large:chunks_per_utt>{lim}:{case['policy']}")
+                if o["has_ref"] and any(len(e.get("ref") or []) > lim for e in es):
+                    t.append(f"dir:large:tokens_in_a_chunk>{lim}")
+        for u in case["utts"]:
+            for lim in (16, 32, 128):
+                if len(u["ref"]) > lim:
+                    t.append(f"dir:large:tokens_per_utt>{lim}")
         if any(len(format(abs(e[k]), "d")) > (5 if e[k] >= 0 else 4) for es in impl["utts"].values() for e in es
                for k in ("start", "end")) and o["format"] == "default":
             t.append("dir:default_name:number_wider_than_field")
@@ -707,7 +786,7 @@ def tags(case, impl):
             t.append("dir:token_straddles_window_edge")
         if nonzero_start:
             t.append("dir:window_start_nonzero")
-    return t
+    return list(dict.fromkeys(t))
 
 
 def shrink(case):
@@ -738,7 +817,20 @@ def shrink(case):
         c["lobe"] = case["lobe"] - 1
         yield c
     for i, u in enumerate(case["utts"]):
-        if len(u["ref"]) > 1:
+        R, T = len(u["ref"]), u["T"]
+
+        def with_utt(nu):
+            c = dict(case)
+            c["utts"] = list(case["utts"])
+            c["utts"][i] = nu
+            return c
+        if T > 12 and u["ali"]:      # long utterances: cut the tail (tokens reaching into it go too)
+            for T2 in (T // 2, T - T // 4):
+                yield with_utt(dict(u, T=T2, ali=u["ali"][:T2], ref=[t for t in u["ref"] if max(t[1], t[2]) <= T2]))
+        if R > 6:
+            for idx in (range(R // 2), range(R // 2, R), range(R - R // 4), range(R // 4, R)):
+                yield with_utt(dict(u, ref=[u["ref"][j] for j in idx]))
+        if 1 < R <= 60:
             for d in range(len(u["ref"])):
                 c = dict(case)
                 c["utts"] = list(case["utts"])
